@@ -284,17 +284,22 @@ flight per other worker.  This is a property of the log alone (no schedule invol
 
 def isLineKind (k : String) : Bool := k = "lm" || k = "li" || k = "lu"
 
+/-- `prefixCount p tr`: entry `k` = number of events among the first `k` that satisfy `p` (size `n+1`). -/
+def prefixCount (p : Ev → Bool) (tr : Array Ev) : Array Nat :=
+  (tr.foldl (fun (acc : Array Nat × Nat) e => let c := if p e then acc.2 + 1 else acc.2; (acc.1.push c, c)) (#[0], 0)).1
+
 /-- position of the first `wc` event whose values are outside the bounds -/
 def counterViolation (W : Nat) (tr : Array Ev) : Option Nat :=
-  let count (p : Ev → Bool) (upto : Nat) : Nat := ((tr.toList.take upto).filter p).length
+  let cm := prefixCount (fun x => x.kind = "lm") tr
+  let cr := prefixCount (fun x => isLineKind x.kind) tr
   (List.range tr.size).find? fun p =>
     let e := evAt tr p
     if e.kind = "wc" then
       let pm := prevPos tr p
-      let loM := count (fun x => x.kind = "lm") (pm + 1)
-      let hiM := count (fun x => x.kind = "lm") p + (W - 1)
-      let loR := count (fun x => isLineKind x.kind) (pm + 1)
-      let hiR := count (fun x => isLineKind x.kind) p + (W - 1)
+      let loM := cm.getD (pm + 1) 0
+      let hiM := cm.getD p 0 + (W - 1)
+      let loR := cr.getD (pm + 1) 0
+      let hiR := cr.getD p 0 + (W - 1)
       !(decide (loM ≤ e.a) && decide (e.a ≤ hiM) && decide (loR ≤ e.b) && decide (e.b ≤ hiR))
     else false
 
